@@ -71,9 +71,12 @@ def elementwise(ctx, case, name, make):
     if len(k) >= 3:
         obj = make()
         with np.errstate(all='ignore'):
-            first = np.array(obj.calculate(k.copy()), dtype=float)
+            ret1 = obj.calculate(k.copy())
+            first = np.array(ret1, dtype=float)
             k2 = k.copy(); k2[1:-1] = k2[1:-1] * 0.5 + 0.5 * k2[0]
             second = np.array(obj.calculate(k2.copy()), dtype=float)
+            # the array handed out by the FIRST call still holds omega on the first grid
+            ctx.pred('eval', case, bool(np.array_equal(np.asarray(ret1, dtype=float), first, equal_nan=True)), '%s: the array returned by an earlier calculate() was overwritten by a later call on the same object' % name, key='C11:stateful')
             fresh2 = np.array(make().calculate(k2.copy()), dtype=float)
             again = np.array(obj.calculate(k.copy()), dtype=float)
         okh = np.array_equal(second, fresh2, equal_nan=True) and np.array_equal(again, first, equal_nan=True) and np.array_equal(first, full, equal_nan=True)
